@@ -106,7 +106,7 @@ def main():
                      "kind_free_text": "Rust harness: proptest TestRunner (fixed seed, shrinking, no persistence) + bounded-exhaustive enumerators, worker processes with watchdog, independent oracles, JSON replay files"}],
         "checks": checks,
         "not_applicable": na,
-        "notes": "Exit codes: 0 held, 1 VIOLATION (with replay path), 2 inconclusive/infrastructure. VERIF_SEED selects the PRNG seed. KNOWN_FINDINGS.txt lists open findings and fixed defects. Every check has three layers of sub-checks (small random + bounded-exhaustive; size ladders 255..2^20; value/configuration ladders), see DESIGN.md section 10.",
+        "notes": "Exit codes: 0 held, 1 VIOLATION (with replay path), 2 inconclusive/infrastructure. VERIF_SEED selects the PRNG seed. KNOWN_FINDINGS.txt lists open findings and fixed defects. Every check has four layers of sub-checks (small random + bounded-exhaustive; size ladders 255..2^20; value/configuration ladders; usage patterns: iterator protocol, aliased arguments, self-application, use after refusal), see DESIGN.md section 10.",
     }
     json.dump(m, open(f"{V}/MANIFEST.json", "w"), indent=1)
     print("checks:", [c["property_id"] for c in checks])
